@@ -63,6 +63,7 @@ theorem runFrom_refines
       · simp only [ih _ _ _ _ h1 h2 hvrest, hp]
     | clone => simp only [runFrom, step, ih _ _ _ _ h1 h2 hvrest]
     | swap => simp only [runFrom, step, ih _ _ _ _ h2 h1 hvrest]
+    | fork => simp only [runFrom, step, ih _ _ _ _ h1 h1 hvrest]
     | num => simp only [runFrom, step, ih _ _ _ _ h1 h2 hvrest, sim.num a b h1]
     | coords => simp only [runFrom, step, ih _ _ _ _ h1 h2 hvrest, sim.coords a b h1]
     | part i => simp only [runFrom, step, ih _ _ _ _ h1 h2 hvrest, sim.part a b i h1]
